@@ -6,6 +6,7 @@ import (
 
 	"pgregory.net/rapid"
 
+	"verif/internal/boxwalk"
 	"verif/internal/fragbuild"
 	"verif/internal/harness"
 )
@@ -134,6 +135,8 @@ func genExtra(t *rapid.T, kinds []string, trackID uint32, l string) Extra {
 		return Extra{Type: pick(t, l+"4cc", "abcd", "zzzz", "xyz1"), Label: k, Payload: data}
 	case "free":
 		return Extra{Type: "free", Label: k, Payload: data}
+	case "udta":
+		return Extra{Type: "udta", Label: k, Payload: boxwalk.Make("vndr", data)}
 	case "emsg0":
 		return Extra{Type: "emsg", Label: "emsg", Payload: cat([]byte{0, 0, 0, 0}, []byte("urn:verif\x00"), []byte("v\x00"),
 			b32(1000), b32(5), b32(7), b32(42), data)}
@@ -235,15 +238,29 @@ func Gen(t *rapid.T, o GenOpt) Case {
 		}
 	}
 
+	// further children of the visual sample entry behind the decoder configuration
+	var entryExtra [][]byte
+	if c.Video() {
+		for i, n := 0, pick(t, "nEntryExtra", 0, 0, 1, 2); i < n; i++ {
+			switch uni(t, 3, "entryExtra") {
+			case 0:
+				entryExtra = append(entryExtra, boxwalk.Make("btrt", []byte{0, 0, 0x10, 0, 0, 0x0f, 0x42, 0x40, 0, 0x07, 0xa1, 0x20}))
+			case 1:
+				entryExtra = append(entryExtra, boxwalk.Make("pasp", []byte{0, 0, 0, 1, 0, 0, 0, 1}))
+			default:
+				entryExtra = append(entryExtra, boxwalk.Make("vndr", rapid.SliceOfN(rapid.Byte(), 0, 8).Draw(t, "vndr")))
+			}
+		}
+	}
 	var vc videoCtx
 	switch c.Codec {
 	case "avc1", "avc3":
 		a := genAVCSets(t)
-		c.Stsd = a.stsd(c.Codec)
+		c.Stsd = a.stsd(c.Codec, entryExtra...)
 		vc = a
 	case "hvc1":
 		h := genHEVCSets(t)
-		c.Stsd = h.stsd(c.Codec, rapid.Bool().Draw(t, "complete"))
+		c.Stsd = h.stsd(c.Codec, rapid.Bool().Draw(t, "complete"), entryExtra...)
 		vc = h
 	default:
 		s, err := AacStsd()
@@ -278,6 +295,15 @@ func Gen(t *rapid.T, o GenOpt) Case {
 		fs.InMoof = genExtras(t, extraKinds, c.TrackID, "inmoof-")
 		fs.InTraf = dropAvoided(o, FeatUUIDInTraf, genExtras(t, extraKinds, c.TrackID, "intraf-"), func(x Extra) bool { return x.Type == "uuid" })
 		c.Frags = append(c.Frags, fs)
+	}
+
+	// vendor boxes at the end of moov
+	base1 := false
+	for _, f := range c.Frags {
+		base1 = base1 || f.Opts.Base == 1
+	}
+	if !base1 {
+		c.MoovExtra = genExtras(t, []string{"vendor", "unknown", "free", "udta"}, c.TrackID, "moov-")
 	}
 
 	// samples
@@ -425,6 +451,17 @@ func Classes(c *Case) []string {
 	add(len(c.Frags) >= 2, ">=2 fragments")
 	add(c.Styp, "styp-segments")
 	add(len(c.Pssh) > 0, "pssh-given")
+	add(len(c.MoovExtra) > 0, "extra-box-in-moov")
+	if e := c.Stsd; len(e) > 24 && c.Video() {
+		n := 0
+		for p := 16 + 86; p+8 <= len(e); p += int(uint32(e[p])<<24 | uint32(e[p+1])<<16 | uint32(e[p+2])<<8 | uint32(e[p+3])) {
+			n++
+			if e[p] == 0 && e[p+1] == 0 && e[p+2] == 0 && e[p+3] == 0 {
+				break
+			}
+		}
+		add(n > 1, "extra-box-in-sample-entry")
+	}
 	var inTraf, inMoof, pre, uuidTraf, big, thr, esc, mdl, base1, base2 bool
 	for _, f := range c.Frags {
 		inTraf = inTraf || len(f.InTraf) > 0
@@ -455,6 +492,8 @@ func Classes(c *Case) []string {
 				continue
 			}
 			nv++
+			// clear bytes of this NAL unit in front of its protected part (cenc: as the usual 96..111 byte
+			// lead; labelling only, the oracles do not use this)
 			lead := 4 + n.Hdr
 			if c.Scheme == "cenc" {
 				lead = 4 + n.Len()
@@ -462,11 +501,11 @@ func Classes(c *Case) []string {
 					lead = 96 + (n.Len()+4-96)&15
 				}
 			}
-			if lead < 4+n.Len() || c.Scheme == "cbcs" {
+			if lead < 4+n.Len() {
 				big = big || run+lead > 65535
 				run = 0
 			} else {
-				run += lead
+				run += 4 + n.Len()
 			}
 			for _, e := range nalSizeEdges {
 				thr = thr || n.Len() == e
@@ -480,26 +519,29 @@ func Classes(c *Case) []string {
 	add(esc, "slice-header-with-escape")
 	add(multi, "several-slices-in-sample")
 	if c.Scheme == "cenc" && ivl == 16 {
-		// low 64 bits of the counter overflow inside the fragment (or the whole 128 bits wrap)
+		// the low 64 bits of the counter certainly overflow inside a fragment: lower bound of the cipher blocks
+		// used (audio: whole sample; video: a NAL unit longer than 127 bytes is protected from byte 127 at the latest)
 		lo := uint64(0)
 		for _, b := range c.IV[8:] {
 			lo = lo<<8 | uint64(b)
 		}
-		blocks := uint64(0)
-		for i := range c.Samples {
-			blocks += uint64(len(c.Samples[i].Raw)+15)/16 + uint64(sampleLen(&c.Samples[i]))/16
+		i, wrap := 0, false
+		for _, f := range c.Frags {
+			blocks := uint64(0)
+			for k := 0; k < f.N; k, i = k+1, i+1 {
+				s := &c.Samples[i]
+				blocks += uint64(len(s.Raw)+15) / 16
+				for n := range s.Nals {
+					if s.Nals[n].VCL && s.Nals[n].Len() > 127 {
+						blocks += uint64(s.Nals[n].Len()-127) / 16
+					}
+				}
+			}
+			wrap = wrap || (blocks >= 2 && ^lo < blocks-1)
 		}
-		add(^lo < blocks, "iv-counter-wrap")
+		add(wrap, "iv-counter-wrap")
 	}
 	return cl
-}
-
-func sampleLen(s *Sample) int {
-	n := 0
-	for k := range s.Nals {
-		n += 4 + s.Nals[k].Len()
-	}
-	return n
 }
 
 // ExpectProtected predicts from the model whether some sample gets protected bytes under the property:
